@@ -241,7 +241,7 @@ def judge(ctx, traces, l2=True):
     if l2:
         # implementation-shaped unit list: drift only (one unit per group, LagControl clumps of 16)
         ok = [dict(id=t['id'], d=t['d'], ev=t['ev'][:1]) for t in traces
-              if verdicts[t['id']] is None and (not ctx.quick or t['id'] % 4 == 0)]
+              if verdicts[t['id']] is None and (not ctx.quick or t['id'] % 8 == 0)]
         v2 = ctx.validate('TraceControls', 'TraceControls.cfg', ok, env={'VERIF_L2': '1'})
         ctx.cov['traces_validated_against_impl'] -= len(ok)      # same traces, second reading
         for t in ok:
